@@ -689,7 +689,7 @@ theorem SInv.foc_nil_spec {w : World} (h : SInv w) (hI : IdxInv w)
       have hemp : (w1.arch a).tables.tables = [] := List.isEmpty_iff.1 hem
       have h0 : (w1.arch a).numRel = 0 := by simpa [Archetype.hasRelations] using hnr1
       have hct0 := createTable_of_valid (a := a) (rels := []) (w := w1) (by omega)
-        (by intro r hr; cases hr) (by intro r hr; cases hr)
+        (by intro r hr; cases hr) List.nodup_nil (by intro r hr; cases hr)
       obtain ⟨A2, Tn, ta, r1, _, _, _⟩ := hmid.createTableS_added hA1 (rels := [])
         (by intro r hr; cases hr) (by intro r hr; cases hr) (fun _ => hemp)
       have hTn : (createTableS w1 a []).1.tbl (createTableS w1 a []).2 = Tn := tbl_of_get ta.tget_self
